@@ -706,6 +706,15 @@ theorem reads_keep_no_state_on_the_object :
       "_Image._generate_temp_tables", "_Image.get_stored_frame"].all fun f => readPathFunctions.contains f) = true := by
   decide
 
+/-- **No lock survives a read** (T8r; what lets the state machine treat a temporary table as "exists / does not exist"): both
+iterators run their frame query before the `yield` and close its cursor in a `finally` around it, so a read that raises part
+way through the rows — whose exception the caller may keep — leaves tables behind but no open query on them.  A table left
+behind is dropped by the next read (`temp_table_program_is_restartable`); a table left LOCKED could not be ("database table is
+locked", defect C02-stack-cursor-left-open, fixed 33861f5; the tiled iterator e921751).  Exercised by the correspondence: half
+of the histories are run by a caller that keeps every exception. -/
+theorem frame_query_cursor_is_closed :
+    frameQueryCursorClosed = [("_iterate_indices_for_stack", true), ("_iterate_indices_for_tiled_region", true)] := by decide
+
 /-- **State-independence of reads**: take any object state (any temporary tables left behind, pixel array cached or not) and
 any history of operations — reads of any kind, accepted or refused, and looks at `pixel_array` — then every read answers
 exactly as it would on a fresh object (`stateless`), in particular a request repeated later gets the same answer.  Hypotheses:
